@@ -1,1 +1,170 @@
-/-! # C19 — property theorems (stub: not built yet) -/
+import KM.Lemmas.Client
+/-! # C19 — the client never sends private keys and installs credentials safely
+
+Property theorems only.  Model: `KM/Model/Client.lean`.  Generated facts: `KM/Gen/Client.lean`
+(client key generation per preference, certificate requests, the server's key-type alternation
+and strength thresholds, every use / serialisation of private-key material in the client). -/
+namespace KM.Client
+open KM.ClientSite
+
+/-- the hand-written `offers` is what the current client source does (regenerated tables):
+for every preference the list of (certificate type, key, mandatory) is the same -/
+theorem c19_offers_match_source :
+    ∀ p ∈ [Pref.rsa, Pref.p256, Pref.p384], offersFromSource p = (offers p).map some := by
+  decide
+
+/-- the facts the line model relies on: the regex is the modelled one around the alternation, and
+no alternative contains a space -/
+theorem c19_regex_shape :
+    KM.Gen.sshKeyRegexRestAsModelled = true ∧
+    KM.Gen.sshKeyTypeAlternation.all (fun t => !t.contains ' ' && !t.isEmpty) = true := by
+  decide
+
+/-- base64 text as `ssh.MarshalAuthorizedKey` produces it: a non-empty run of the standard
+alphabet followed by at most two `=` -/
+def IsB64Body (body : List Char) : Prop := body ≠ [] ∧ ∀ c ∈ body, isB64 c = true
+
+/-- **Every key the client offers is one the server certifies.**  For every key preference, every
+certificate request `setupCerts` makes (x509, x509-kubernetes, ssh with the main key, ssh with
+the Ed25519 key) and whatever the key bytes are: the server's key-file checks pass — for the SSH
+requests on the very line the client sends.  The only condition is the server-side configuration
+of an Ed25519 CA for the (optional) Ed25519 request; the mandatory requests need nothing. -/
+theorem c19_offer_accepted (p : Pref) (cfg : ServerCfg) (o : Offer) (ho : o ∈ offers p)
+    (hc : o.mandatory = true ∨ cfg.ed25519CA = true)
+    (body pad : List Char) (hb : IsB64Body body) (hp : isPad pad) :
+    accepts KM.Gen.sshKeyTypeAlternation cfg o.cert (clientLine o.key body pad) o.key = true := by
+  have ssh : ∀ k : Key, ∀ ty, sshTypeName k = some ty →
+      KM.Gen.sshKeyTypeAlternation.contains ty = true → (∀ c ∈ ty, c ≠ ' ') → strong k = true →
+      (k.kind ≠ KeyKind.ed25519 ∨ cfg.ed25519CA = true) →
+      accepts KM.Gen.sshKeyTypeAlternation cfg .ssh (clientLine k body pad) k = true := by
+    intro k ty hty hin hsp hst hed
+    have hl : lineOK KM.Gen.sshKeyTypeAlternation (clientLine k body pad) = true := by
+      unfold clientLine
+      rw [hty]
+      exact lineOK_clientLine _ ty body pad hin hsp hb.2 hb.1 hp
+    simp only [accepts, sshVerdict, hl, if_true, hst]
+    rcases hed with h | h
+    · simp [h]
+    · simp [h]
+  have hca : o.mandatory = false → cfg.ed25519CA = true := by
+    intro hm; rcases hc with h | h
+    · rw [hm] at h; cases h
+    · exact h
+  cases p with
+  | unknown => simp [offers, mainKey] at ho
+  | rsa =>
+    simp only [offers, mainKey, List.mem_cons, List.not_mem_nil, or_false] at ho
+    rcases ho with h | h | h | h <;> subst h
+    · simp only [accepts]; decide
+    · simp only [accepts]; decide
+    · exact ssh _ "ssh-rsa".toList rfl (by decide) (by decide) (by decide) (Or.inl (by decide))
+    · exact ssh _ "ssh-ed25519".toList rfl (by decide) (by decide) (by decide) (Or.inr (hca rfl))
+  | p256 =>
+    simp only [offers, mainKey, List.mem_cons, List.not_mem_nil, or_false] at ho
+    rcases ho with h | h | h | h <;> subst h
+    · simp only [accepts]; decide
+    · simp only [accepts]; decide
+    · exact ssh _ "ecdsa-sha2-nistp256".toList rfl (by decide) (by decide) (by decide) (Or.inl (by decide))
+    · exact ssh _ "ssh-ed25519".toList rfl (by decide) (by decide) (by decide) (Or.inr (hca rfl))
+  | p384 =>
+    simp only [offers, mainKey, List.mem_cons, List.not_mem_nil, or_false] at ho
+    rcases ho with h | h | h | h <;> subst h
+    · simp only [accepts]; decide
+    · simp only [accepts]; decide
+    · exact ssh _ "ecdsa-sha2-nistp384".toList rfl (by decide) (by decide) (by decide) (Or.inl (by decide))
+    · exact ssh _ "ssh-ed25519".toList rfl (by decide) (by decide) (by decide) (Or.inr (hca rfl))
+
+/-- the alternation of the pinned tree -/
+def alternationAsFound : List (List Char) :=
+  ["ssh-rsa".toList, "ssh-dss".toList, "ecdsa-sha2-nistp256".toList, "ssh-ed25519".toList]
+
+/-- with `-preferredKeyType p384` the client's main SSH key is `ecdsa-sha2-nistp384`; the regex
+of the pinned tree refuses the line the client sends (so `setupCerts` fails as a whole), while
+the same server accepts the same key for X.509 -/
+theorem c19_unfixed_counterexample :
+    (⟨.ssh, ⟨.ecdsa, 384, 0⟩, true⟩ : Offer) ∈ offers .p384 ∧
+    accepts alternationAsFound ⟨true⟩ .ssh (clientLine ⟨.ecdsa, 384, 0⟩ "AAAAE2VjZHNh".toList []) ⟨.ecdsa, 384, 0⟩ = false ∧
+    sshVerdict alternationAsFound (clientLine ⟨.ecdsa, 384, 0⟩ "AAAAE2VjZHNh".toList []) (some ⟨.ecdsa, 384, 0⟩) = .badRe ∧
+    accepts alternationAsFound ⟨true⟩ .x509 [] ⟨.ecdsa, 384, 0⟩ = true := by
+  decide
+
+/-- non-vacuity: the hypotheses of `c19_offer_accepted` are satisfiable -/
+example : IsB64Body "AAAAC3NzaC1lZDI1NTE5".toList ∧ isPad ['='] ∧
+    (⟨.ssh, ed25519Key, false⟩ : Offer) ∈ offers .rsa := by
+  refine ⟨⟨by decide, by decide⟩, Or.inr (Or.inl rfl), by decide⟩
+
+/-! ## agent -/
+
+/-- **Agent upsert.**  For every agent content (each key blob held once, as OpenSSH's agent
+guarantees) and every new certificate entry with a fresh blob: after the upsert the agent holds
+exactly the old entries that are not certificates with the new entry's comment, in their order,
+plus the new entry; so exactly one certificate carries the comment — the new one — and every
+other entry (other comments, plain keys) is untouched. -/
+theorem c19_agent (a : List Entry) (new : Entry) (hnd : (a.map Entry.blob).Nodup) (hc : new.isCert = true) :
+    agentUpsert a new = a.filter (fun e => !isDup new e) ++ [new] ∧
+    (agentUpsert a new).filter (isDup new) = [new] ∧
+    ∀ e, isDup new e = false → (e ∈ agentUpsert a new ↔ e ∈ a) := by
+  have h := agentUpsert_eq a new hnd
+  have hself : isDup new new = true := by simp [isDup, hc]
+  refine ⟨h, ?_, ?_⟩
+  · rw [h, List.filter_append, List.filter_filter]
+    have : a.filter (fun e => isDup new e && !isDup new e) = [] := by
+      apply List.filter_eq_nil_iff.mpr
+      intro e _
+      cases isDup new e <;> simp
+    rw [this]
+    simp [hself]
+  · intro e he
+    rw [h]
+    simp only [List.mem_append, List.mem_filter, List.mem_singleton, he, Bool.not_false, and_true]
+    constructor
+    · intro h'
+      rcases h' with h' | h'
+      · exact h'
+      · subst h'; rw [hself] at he; cases he
+    · intro h'; exact Or.inl h'
+
+/-- why the blob hypothesis is there: were the same certificate blob held under two comments,
+`Remove` by blob would delete both -/
+example : agentUpsert [⟨"a".toList, 1, true⟩, ⟨"b".toList, 1, true⟩] ⟨"a".toList, 2, true⟩ =
+    [⟨"a".toList, 2, true⟩] := by decide
+
+/-! ## where private keys go (regenerated tables) -/
+
+def useOK (pkg : ClientPkg) : KeyUse → Bool
+  | .public | .passed | .tlsKey | .assigned | .nilCheck | .typeSwitch | .returned | .declared => true
+  -- serialising a private key and handing it to the agent happen in the CLI and its file / agent
+  -- helpers only, never in the packages that talk to the server
+  | .serialised => pkg == .main || pkg == .util
+  | .agentKey => pkg == .main || pkg == .sshagent
+  | .field | .agentAdd | .unknown => false
+
+def addedKeyUseOK : KeyUse → Bool
+  | .assigned | .passed | .field | .agentAdd => true
+  | _ => false
+
+def sinkOK : KeySink → Bool
+  | .file mode => mode == 0o600
+  | .unused => true
+  | .unknown => false
+
+/-- **Flows.**  In cmd/keymaster and lib/client/*: every occurrence of a private-key valued
+expression is a `.Public()` call, a hand-over to another function of these packages (whose
+parameter is in the table again), the in-process TLS client key, a definition, or — only in the
+CLI itself and its file / agent helpers — a serialisation or an `agent.AddedKey`; every
+serialisation of a private key (PKCS#8, PKCS#1, EC, OpenSSH) flows only into
+`pem.EncodeToMemory` → `WriteFile(…, 0600)`; every `agent.AddedKey` value only reaches
+`agentClient.Add`; and the request-building package lib/client/twofa touches signers only
+through `.Public()` (or passes them to the function that does). -/
+theorem c19_flows :
+    KM.Gen.clientKeyUses.all (fun u => useOK u.1 u.2.2) = true ∧
+    KM.Gen.clientKeySinks.all (fun s => sinkOK s.2.2) = true ∧
+    KM.Gen.clientAddedKeyUses.all (fun u => addedKeyUseOK u.2.2) = true ∧
+    (KM.Gen.clientKeyUses.filter (fun u => u.1 == ClientPkg.twofa)).all
+      (fun u => u.2.2 == KeyUse.public || u.2.2 == KeyUse.passed) = true ∧
+    (KM.Gen.clientKeyUses.filter (fun u => u.1 == ClientPkg.twofa && u.2.2 == KeyUse.public)).length ≥ 1 ∧
+    (KM.Gen.clientKeySinks.filter (fun s => s.2.2 == KeySink.file 0o600)).length ≥ 3 ∧
+    (KM.Gen.clientAddedKeyUses.filter (fun u => u.2.2 == KeyUse.agentAdd)).length ≥ 1 := by
+  decide
+
+end KM.Client
